@@ -1,15 +1,198 @@
-(* C07 -- property theorems only. *)
+(* C07 -- property theorems only.  Each is closed by `exact <lemma>`.
+
+   Vocabulary (C07/Model.v): a program is ANY step function `dispatch` on an
+   opaque state St (all byte strings, all non-terminating instruction streams),
+   host built-ins are ANY step function `host` (may work, call back into Starlark,
+   Cancel, Uncancel, return, fail), other goroutines are ticks TCancel / TUncancel
+   interleaved anywhere in the schedule.  `ndisp tr` = instructions dispatched,
+   `nheads tr` = loop heads reached (= increments of Thread.Steps), over all
+   nested frames.  The uint64 counter wraps in the model; the theorems assume the
+   run visits fewer than 2^64 loop heads. *)
 From Coq Require Import NArith List Bool.
-From SV Require Import C07.Model C07.Spec C07.Proofs.
+From SV Require Import C07.Model C07.Spec C07.Proofs C07.ProofsCancel C07.ProofsLimit C07.ProofsDet C07.ProofsTerm.
 Import ListNotations.
 Open Scope N_scope.
 
-Theorem budget_respected_dispatch :
-  forall (St : Type) (dispatch : St -> action St) (host : St -> option err -> haction St)
-         (recursion : bool) (entry_err : St -> bool)
-         (n : N) (t : thread) (s : St) (sched : list tick) s' tr,
-    1 <= n -> maxSteps t = n -> onmax t = None ->
-    run St dispatch host recursion entry_err (start St recursion entry_err t s) sched = (s', tr) ->
-    steps t + nheads tr < two64 ->
-    steps t + ndisp tr < n \/ ndisp tr = 0.
-Proof. exact budget_dispatch_lemma. Qed.
+Section Statements.
+  Variable St : Type.
+  Variable dispatch : St -> action St.
+  Variable host : St -> option err -> haction St.
+  Variable recursion : bool.
+  Variable entry_err : St -> bool.
+  Notation run := (run St dispatch host recursion entry_err).
+  Notation start := (start St recursion entry_err).
+  Notation life := (life St dispatch host recursion entry_err).
+
+  (* A thread with limit n >= 1 and the default OnMaxSteps: whatever the program,
+     the host code and the schedule,
+     (a) fewer than n instructions are dispatched in total (counting the steps the
+         thread had already counted): "never executes N or more steps";
+     (b) an execution that returns successfully has reached fewer than n loop heads,
+         i.e. a computation that needs an n-th step cannot succeed;
+     (c) if the n-th loop head is reached during this execution it ends with the
+         cancellation error, provided host code hands errors on unchanged. *)
+  Definition budget_respected_stmt : Prop :=
+    forall n t s sched s' tr,
+      1 <= n -> maxSteps t = n -> onmax t = None ->
+      run (start t s) sched = (s', tr) ->
+      steps t + nheads tr < two64 ->
+      (steps t + ndisp tr < n \/ ndisp tr = 0) /\
+      (forall t' x r, s' = Finished t' x r ->
+         steps t' = steps t + nheads tr /\
+         (r = None -> steps t + nheads tr < n) /\
+         (host_transparent St host -> steps t < n -> n <= steps t + nheads tr ->
+          exists y, r = Some (ECancel y))).
+
+  (* the same for a fresh thread, as the property text reads *)
+  Definition budget_respected_fresh_stmt : Prop :=
+    forall n s sched s' tr,
+      1 <= n ->
+      run (start (set_max_execution_steps new_thread n) s) sched = (s', tr) ->
+      nheads tr < two64 ->
+      ndisp tr < n.
+
+  (* From any moment at which a reason r is in force (cancel = Some r), and as
+     long as nobody calls Uncancel: at most the one instruction whose cancellation
+     test had already passed is dispatched (none if the Cancel came from a built-in
+     running on the interpreter's goroutine: then no frame is between test and
+     dispatch), r stays in force, and every loop exit names r. *)
+  Definition no_step_after_cancel_stmt : Prop :=
+    forall sched s s' tr r,
+      default_thread (sthread St s) -> cancel (sthread St s) = Some r ->
+      run s sched = (s', tr) -> has_uncancel tr = false ->
+      pend St s' + ndisp tr <= pend St s /\ cancel (sthread St s') = Some r /\
+      exits_ok [CCancel r] tr = true.
+
+  (* Over a whole life of one thread -- any sequence of Cancel / Uncancel /
+     executions under any schedules, with any Cancel / Uncancel calls by built-ins
+     and other goroutines during the executions: the reason in force at the end is
+     the first Cancel since the last Uncancel (Spec.first_reason, defined on the
+     history alone), and every cancellation exit in every execution names the
+     reason that was first at that moment. *)
+  Definition first_reason_wins_stmt : Prop :=
+    forall h t t' obs ops,
+      default_thread t -> cancel t = first_reason ops ->
+      life t h = (t', obs) ->
+      default_thread t' /\
+      cancel t' = first_reason (ops ++ ops_of_trace (life_trace obs)) /\
+      exits_ok ops (life_trace obs) = true.
+
+  (* An execution started while r is in force (other goroutines may call Cancel
+     again meanwhile) is over after its first machine step: nothing is dispatched,
+     r is still in force, and unless the call fails before the loop (argument
+     binding / recursion check) the result is the cancellation error naming r after
+     exactly one loop head. *)
+  Definition cancel_persists_stmt : Prop :=
+    forall t s adv r,
+      default_thread t -> cancel t = Some r -> forallb cancel_tick adv = true ->
+      exists t' x e tr,
+        run (start t s) (adv ++ [TRun]) = (Finished t' x (Some e), tr) /\
+        ndisp tr = 0 /\ cancel t' = Some r /\
+        ((recursion && (depth_limit <? 1) || entry_err s = false) ->
+           e = ECancel r /\ nheads tr = 1 /\ steps t' = (steps t + 1) mod two64).
+
+  (* The run of a program (same start state, same schedule) is the same -- same
+     trace, same outcome, same number of steps -- whatever the limit and whatever
+     the thread had counted before, as long as the limit is not reached. *)
+  Definition steps_deterministic_stmt : Prop :=
+    forall t1 t2 s sched s1 tr,
+      onmax t1 = None -> onmax t2 = None -> cancel t1 = cancel t2 ->
+      run (start t1 s) sched = (s1, tr) ->
+      steps t1 + nheads tr < maxSteps (call_init t1) -> steps t1 + nheads tr < two64 ->
+      steps t2 + nheads tr < maxSteps (call_init t2) -> steps t2 + nheads tr < two64 ->
+      exists s2, run (start t2 s) sched = (s2, tr) /\ same_outcome St s1 s2 /\
+                 steps (sthread St s1) = steps t1 + nheads tr /\
+                 steps (sthread St s2) = steps t2 + nheads tr.
+
+  (* With the default OnMaxSteps every execution terminates (no infinite sequence
+     of machine steps, whatever other goroutines do to cancelReason in between),
+     provided built-ins terminate (host_terminates: a measure on host code) and the
+     64-bit counter does not wrap (part of step_rel). *)
+  Definition terminates_under_budget_stmt : Prop :=
+    forall hm : St -> nat,
+      host_terminates St host hm ->
+      (forall c, good St c -> Acc (step_rel St dispatch host recursion entry_err) c) /\
+      (forall f : nat -> config St, good St (f O) ->
+         (forall i, step_rel St dispatch host recursion entry_err (f (S i)) (f i)) -> False).
+End Statements.
+
+Theorem budget_respected : forall St dispatch host recursion entry_err,
+  budget_respected_stmt St dispatch host recursion entry_err.
+Proof.
+  intros St d h rc ee n t s sched s' tr Hn Hm Ho Hr Hw. split.
+  - exact (budget_dispatch_lemma St d h rc ee n t s sched s' tr Hn Hm Ho Hr Hw).
+  - intros t' x r ->. exact (budget_outcome_lemma St d h rc ee n t s sched t' x r tr Hn Hm Ho Hr Hw).
+Qed.
+
+Theorem budget_respected_fresh : forall St dispatch host recursion entry_err,
+  budget_respected_fresh_stmt St dispatch host recursion entry_err.
+Proof. exact budget_fresh_lemma. Qed.
+
+Theorem no_step_after_cancel : forall St dispatch host recursion entry_err,
+  no_step_after_cancel_stmt St dispatch host recursion entry_err.
+Proof. exact no_step_after_cancel_lemma. Qed.
+
+Theorem first_reason_wins : forall St dispatch host recursion entry_err,
+  first_reason_wins_stmt St dispatch host recursion entry_err.
+Proof. exact life_cancel_state. Qed.
+
+Theorem cancel_persists : forall St dispatch host recursion entry_err,
+  cancel_persists_stmt St dispatch host recursion entry_err.
+Proof. exact cancel_persists_lemma. Qed.
+
+Theorem steps_deterministic : forall St dispatch host recursion entry_err,
+  steps_deterministic_stmt St dispatch host recursion entry_err.
+Proof. exact steps_deterministic_lemma. Qed.
+
+Theorem terminates_under_budget : forall St dispatch host recursion entry_err,
+  terminates_under_budget_stmt St dispatch host recursion entry_err.
+Proof.
+  intros St d h rc ee hm HT. split.
+  - exact (terminates_lemma St d h rc ee hm HT).
+  - exact (no_infinite_run_lemma St d h rc ee hm HT).
+Qed.
+
+(* ---- non-vacuity: the hypotheses hold on concrete, non-trivial inputs ---- *)
+
+(* `while True: b()` (4 ordinary instructions, then a built-in, for ever) under
+   limit 7: the premises of budget_respected hold, 6 instructions are dispatched,
+   the run ends with "too many steps" at the 7th loop head *)
+Example budget_premises_hold :
+  let prog := [SPlain 3; SBuiltin []; SPlain 2; SBuiltin []; SLoop] in
+  let t := set_max_execution_steps new_thread 7 in
+  let res := s_run (s_start t prog) (repeat TRun 40) in
+  fst res = Finished (mkThread 7 7 (Some too_many_steps) true None) (mkS [SBuiltin []; SLoop] None)
+                     (Some (ECancel too_many_steps)) /\
+  1 <= 7 /\ maxSteps t = 7 /\ onmax t = None /\ steps t + nheads (snd res) < two64 /\
+  ndisp (snd res) = 6 /\ nheads (snd res) = 7 /\ count_ev is_builtin (snd res) = 1%nat.
+Proof. vm_compute. repeat split; discriminate. Qed.
+
+(* a built-in cancels with reason 2, then another goroutine with reason 3: the
+   premises of no_step_after_cancel hold from the built-in's step on *)
+Example cancel_premises_hold :
+  let prog := [SPlain 2; SBuiltin [SCancel 2]; SPlain 5; SBuiltin []] in
+  let r1 := s_run (s_start new_thread prog) (repeat TRun 7) in
+  let r2 := s_run (fst r1) (TCancel 3 :: repeat TRun 10) in
+  default_thread (status_thread sstate (fst r1)) /\ cancel (status_thread sstate (fst r1)) = Some 2 /\
+  has_uncancel (snd r2) = false /\ ndisp (snd r2) = 0 /\
+  fst r2 = Finished (mkThread 4 max_uint64 (Some 2) true None) (mkS [SPlain 5; SBuiltin []] None) (Some (ECancel 2)).
+Proof. vm_compute. repeat split. Qed.
+
+(* host code satisfying both host hypotheses exists: the scripted built-ins
+   terminate, and a host that hands errors on is transparent *)
+Example script_host_terminates :
+  host_terminates sstate s_host (fun s => match pending s with Some l => length l | None => O end).
+Proof.
+  intros s pe. unfold s_host. destruct (pending s) as [[|[r|] l]|]; cbn; auto.
+Qed.
+
+Example transparent_host_exists :
+  host_transparent nat (fun s pe => match pe with Some e => HFail e s | None => HReturn s end).
+Proof. intros s e. exists s. reflexivity. Qed.
+
+(* first_reason on a history: Cancel 1, Cancel 2, Uncancel, Cancel 3, Cancel 4 *)
+Example first_reason_example :
+  first_reason [CCancel 1; CCancel 2] = Some 1 /\
+  first_reason [CCancel 1; CCancel 2; CUncancel] = None /\
+  first_reason [CCancel 1; CCancel 2; CUncancel; CCancel 3; CCancel 4] = Some 3.
+Proof. vm_compute. repeat split. Qed.
